@@ -31,6 +31,14 @@ void vp_native_post (int ok, const char *name, const char *what) {
 	if (!ok) { printf ("REPLAY-CONFIRMED obligation=%s violated on the real code: %s\n", name, what); exit (1); }
 }
 
+void vp_native_fail (const char *msg) {
+	printf ("REPLAY-CONFIRMED obligation violated on the real code: %s\n", msg);
+	exit (1);
+}
+void vp_native_diverged (const char *what) {
+	printf ("REPLAY-DIVERGED an assumption of the verifier's trace does not hold natively: %s\n", what);
+	exit (3);
+}
 void VP_ENTRY (void);
 int main (int argc, char **argv) {
 	if (argc > 1) script = fopen (argv[1], "r");
